@@ -55,7 +55,7 @@ def plan(tier, seed):
       'budget_s': 280 if tier == 'quick' else 3300,
       'rule': ('E2 (state space of C11): at every reachable recipe state the '
                'exported recipe, after a JSON round trip, is loaded into a '
-               'fresh Quantizer: no exception, equal re-export, equal 25-entry '
+               'fresh Quantizer: no exception, equal re-export, equal 31-entry '
                'resolution table; for states at depth <= 2 three fixed models '
                'x a fixed calibration result quantize to byte-identical output '
                'from the original and the reloaded recipe (also through '
@@ -74,7 +74,10 @@ def _f(kind, detail, sub, facts=None):
 
 def _quant(qt, cal):
   try:
-    return ('ok', bytes(qt.quantize(copy.deepcopy(cal)).quantized_model))
+    # as a user would: statistics only when the recipe asks for them (with
+    # statistics present, constants never take the compute-on-the-spot path)
+    arg = copy.deepcopy(cal) if qt.need_calibration else None
+    return ('ok', bytes(qt.quantize(arg).quantized_model))
   except Exception as e:  # pylint: disable=broad-except
     return ('exc', type(e).__name__)
 
